@@ -151,29 +151,35 @@ def _holds(z, c):
 _MM = {}
 
 
-def _mm(key='str'):
+def _mm(key='str', **cfg):
     from textx import metamodel_from_str
-    if key not in _MM:
+    k2 = (key, tuple(sorted(cfg.items())))
+    if k2 not in _MM:
         g = {'str': "Model: vals+=STRING;", 'int': "Model: vals+=INT[','];",
              'num': "Model: vals+=NUMBER[','];", 'float': "Model: vals+=FLOAT[','];",
              'sfloat': "Model: vals+=STRICTFLOAT[','];", 'bool': "Model: vals+=BOOL[','];"}[key]
-        _MM[key] = metamodel_from_str(g)
-    return _MM[key]
+        _MM[k2] = metamodel_from_str(g, **cfg)
+    return _MM[k2]
+
+
+# metamodel configurations under which the base types must convert alike
+MM_CONFIGS = [{}, {'use_regexp_group': True}, {'ignore_case': True, 'autokwd': True}, {'memoization': True, 'skipws': True}]
 
 
 def replay_string(s, q, cont):
     """through the public API: q esc(s) q cont must load and give s first"""
     text = q + s.replace(q, '\\' + q) + q + cont
-    try:
-        m = _mm().model_from_str(text)
-    except Exception as e:
-        # the continuation itself may be malformed (free chars): only count
-        # failures when the continuation is empty or a well-formed string
-        if cont == '' or re.fullmatch(r'\s*("[^"\\]*"|\'[^\'\\]*\')', cont):
-            return True, 'load failed: %s: %s' % (type(e).__name__, e)
-        return False, 'continuation not well-formed'
-    if not m.vals or m.vals[0] != s or type(m.vals[0]) is not str:
-        return True, 'parsed back as %r' % (m.vals[:1],)
+    for cfg in MM_CONFIGS:
+        try:
+            m = _mm('str', **cfg).model_from_str(text)
+        except Exception as e:
+            # the continuation itself may be malformed (free chars): only count
+            # failures when the continuation is empty or a well-formed string
+            if cont == '' or re.fullmatch(r'\s*("[^"\\]*"|\'[^\'\\]*\')', cont):
+                return True, 'load failed (%s): %s: %s' % (cfg, type(e).__name__, e)
+            return False, 'continuation not well-formed'
+        if not m.vals or m.vals[0] != s or type(m.vals[0]) is not str:
+            return True, 'parsed back as %r (metamodel %s)' % (m.vals[:1], cfg)
     return False, 'ok'
 
 
@@ -248,14 +254,15 @@ def replay_number(kind, rule, lit, follow):
         text = lit + ',1' if kind == 'int' else lit + ',1.0'
     if follow == ')':
         return replay_regex_only(rule, lit, follow, exp)
-    try:
-        m = _mm(key).model_from_str(text)
-    except Exception as e:
-        return True, '%s: %s' % (type(e).__name__, e)
-    v = m.vals[0]
     want_type = float if rule in ('FLOAT', 'STRICTFLOAT') else type(exp)
-    if v != exp or type(v) is not want_type:
-        return True, 'parsed %r as %r (%s), expected %r' % (lit, v, type(v).__name__, exp)
+    for cfg in MM_CONFIGS:
+        try:
+            m = _mm(key, **cfg).model_from_str(text)
+        except Exception as e:
+            return True, '%s: %s (metamodel %s)' % (type(e).__name__, e, cfg)
+        v = m.vals[0]
+        if v != exp or type(v) is not want_type:
+            return True, 'parsed %r as %r (%s), expected %r (metamodel %s)' % (lit, v, type(v).__name__, exp, cfg)
     return False, 'ok'
 
 
@@ -276,10 +283,10 @@ def bool_check():
     n = 0
     for lit, exp in (('true', True), ('false', False), ('True', True), ('False', False), ('0', False),
                      ('1', True)):
-        for follow in ('', ' ', ',1'):
+        for follow, cfg_ in itertools.product(('', ' ', ',1'), MM_CONFIGS):
             n += 1
             try:
-                m = _mm('bool').model_from_str(lit + follow)
+                m = _mm('bool', **cfg_).model_from_str(lit + follow)
                 if m.vals[0] is not exp:
                     out.append({'kind': 'bool', 'literal': lit, 'detail': 'parsed as %r' % (m.vals[0],)})
             except Exception as e:
